@@ -28,6 +28,8 @@ UNITS = {
 }
 
 UNITS["C02"] = [
+    dict(kind="structural", name="c02_from_conn", check="from_conn", file="crates/klukai-types/src/agent.rs", fn="from_conn", impl="^impl BookedVersions$",
+         trusted=["insert_partial only raises the head (proved: unit c02_booked); the row loops visit every persisted row (rusqlite)"]),
     dict(kind="structural", name="c02_sql_scoping", check="sql_actor_scoping", file="crates/klukai-types/src/agent.rs",
          trusted=["heuristic SQL reading (see c03_sql_scoping)"]),
     dict(kind="verus", name="c02_gaps", template="specs/c02_gaps.vrs",
